@@ -22,7 +22,7 @@ CHECKS = {
          "every single/pair of split points of short streams, PRNG chunking of long streams with packets around 4096 bytes, all async/sync patterns of <=6 sends x 3 flush delays, BaseConn both directions, TCP and WebSocket loopback (half of the exchanges with the read limit equal to the largest packet), WebSocket exchanges of in-limit packets followed by one oversized packet under three message splittings",
          "expected bytes come from internal/ref/codec.go; loopback networking must be available (else that part is reported inconclusive)", "2-C03"),
  "C06": ("exploration", "reference delivery model compared with the PUBLISH multisets received by scripted peers behind FIFO marker fences (sequential), event-log-order oracle for concurrent runs",
-         "120 (quick) / 2500 (thorough) sequential histories of 20-40 operations over 1-6 clients and a topic/filter universe that includes empty levels (a//b, a/b/, /a) checked after every operation, 40 / 1000 concurrent runs of 2-6 clients with backend-boundary perturbation",
+         "120 (quick) / 2500 (thorough) sequential histories of 20-40 operations over 1-6 clients and a topic/filter universe that includes empty levels (a//b, a/b/, /a) checked after every operation, 40 / 1000 concurrent runs of 2-6 clients with backend-boundary perturbation, 15 / 300 burst runs (subscriber pauses reading, session queue 4)",
          "peers acknowledge everything and keep reading; offline/resume behaviour belongs to C08; in concurrent runs a delivery may carry the uncapped publish QoS when the client's own unsubscribe fell between publish and delivery (recorded, not asserted)", "2-C06"),
  "C20": ("exploration", "wire byte recorder (zero bytes before CONNECT), per-connection backend hook trace, response multiset matching behind a SUBSCRIBE fence through the ack queue",
          "exhaustive over all packet-kind sequences of length 1-3 x 4 credential situations written in one burst, hostile first frames, 1.5k (quick) / 120k (thorough) random pipelines of up to 40 packets with repeating ids",
@@ -31,25 +31,25 @@ CHECKS = {
          "120 (quick) / 2500 (thorough) histories of 14-28 steps: retained/plain/empty publishes, retained wills of dropped victims, subscriptions cycling through all 105 filters of the depth<=3 universe; 12/120 stalled-victim runs (own queue full, retained will must survive); 150 (quick) / 3000 (thorough) concurrent runs in which 3-8 subscribers subscribe while a publisher streams 40-100 numbered retained values under backend load (replayed value + live values must be gap-free)",
          "per-filter replay of one SUBSCRIBE may arrive 1..k times; QoS 0 publishes for an offline persistent subscriber may be dropped", "2-C11"),
  "C07": ("fault_enumeration", "offline checkers over the recorded event log (backend ack -> PUBACK/PUBCOMP order, three-state QoS 2 receiver model driven by the broker's own received-packet report, hand-over counts) plus a pre-send assertion on the session for PUBREC and a SUBACK fence through the ack queue",
-         "every publisher script of length <=3 (quick) / <=4 plus 1200 sampled of length 5 (thorough) x every single connection-fault position (all positions up to length 2 in quick / 3 in thorough, every 2nd-3rd position with a moving offset beyond) (k-th Send/Receive, before/after, per connection) x backend ack mode {sync, late, never} x backend refusing the k-th hand-over; held-late-ack scenarios; fault-free runs with as few publish tokens as the script needs (the broker must never end a connection of the well-behaved publisher by itself)",
+         "every publisher script of length <=3 (quick) / <=4 plus 1200 sampled of length 5 (thorough) x every single connection-fault position (all positions up to length 2 in quick / 3 in thorough, every 2nd-3rd position with a moving offset beyond) (k-th Send/Receive, before/after, per connection) x backend ack mode {sync, late, never} x backend refusing the k-th hand-over; held-late-ack scenarios; scripts over two QoS 1 and two QoS 2 ids with every acknowledgement fired while the broker is inside Backend.Publish for the next message; fault-free runs with as few publish tokens as the script needs (the broker must never end a connection of the well-behaved publisher by itself)",
          "what the broker received is taken from Log(PacketReceived); one finding (second hand-over while the first is still unacknowledged) is recorded in known_findings.json", "2-C07"),
  "C08": ("fault_enumeration", "pre-send assertion on the live session (store-before-send), model of sent-and-unacknowledged packets driven by broker-side sends and the broker's received-packet report compared with the session store at connection ends, retransmission/DUP check after resume, no-second-non-duplicate check, no new message under a packet id still in flight, end-to-end no-loss check, stored-session model driven by the backend's Setup",
-         "90 (quick) / 1200 (thorough) base scenarios (window 1-3, 1..window+2 messages QoS 1/2, offline messages, subscriber behaviour vectors over ack/withhold/drop on first and resumed connection, clean/unclean second connect) x every single fault position on each subscriber connection (all positions for a third of the scenarios in quick)",
+         "90 (quick) / 1200 (thorough) base scenarios (window 1-3, 1..window+2 messages QoS 1/2, offline messages, subscriber behaviour vectors over ack/withhold/drop on first and resumed connection, clean/unclean second connect, a quarter with the subscriber publishing QoS 2 messages under the ids in flight towards it) x every single fault position on each subscriber connection (all positions for a third of the scenarios in quick)",
          "workloads stay inside SessionQueueSize; the amount delivered before a loss depends on scheduling (the model is event-driven, so this only varies coverage)", "2-C08"),
  "C16": ("exploration", "online inflight counter at the scripted subscriber (never above the window, retransmissions included), two-queue marker drain check, token conservation at quiescence through the VerifTokens hook",
          "1200 (quick) / 20000 (thorough) streams: windows 1-10, 1..20 x window messages, QoS mixes incl. pure QoS 0, batched / reversed / half-way QoS 2 acknowledgement policies, drop+resume at a PRNG point; 12/120 idle-first runs (idle longer than the token timeout, then saturate the window and acknowledge in time)",
          "the subscriber only acknowledges what it received and releases withheld acknowledgements when its window is full; hook commit adds broker/verif_hooks.go behind the verif tag", "2-C16"),
  "C12": ("fault_enumeration", "count of Backend.Publish calls with the will's content on behalf of the dying client after its Closed() fired, cross-checked with online, offline-persistent and late (retained) observers behind marker fences",
-         "full matrix of 19 termination causes x 5 protocol states (applicable pairs) x will QoS 0-2 x retain = 390 scenarios, 3 (quick) / 100 (thorough) repetitions for schedule diversity; keep-alive expiry also with a silent victim under steady outbound traffic; 24/400 runs with an online observer whose window and queue are full when the victim dies",
+         "full matrix of 19 termination causes x 5 protocol states (applicable pairs) x will QoS 0-2 x retain = 390 scenarios, 3 (quick) / 100 (thorough) repetitions for schedule diversity; keep-alive expiry also with a silent victim under steady outbound traffic; 24/400 runs with an online observer whose window and queue are full when the victim dies; 12/200 runs with a victim whose own queue is full (retained will)",
          "DISCONNECT racing with another cause is judged by what the broker logged as received; a processor blocked on a token ends at the token timeout", "2-C12"),
  "C13": ("exploration", "online assertions at the backend boundary (Setup return: no other set-up client of the id without Terminate; CONNACK pre-send: every older client of the id terminated), PINGREQ liveness probe (exactly one survivor), session-present replay in recorded Setup order, Terminate counts, displaced will count, VerifSnapshot bookkeeping, no-loss/no-second-new-delivery for persistent parties, goroutine-profile stuck detector, race detector",
-         "1200 (quick) / 25000 (thorough) rounds of 2-8 simultaneous CONNECTs with one id (clean/unclean mixed) against an absent / idle / mid-handshake / token-starved / concurrently dying old connection with concurrent QoS 1 traffic and backend-boundary perturbation; 2-6 blocked-in-send rounds (known finding)",
+         "1200 (quick) / 25000 (thorough) rounds of 2-8 simultaneous CONNECTs with one id (clean/unclean mixed) against an absent / idle / mid-handshake / token-starved / PUBREL-sending / concurrently dying old connection with concurrent QoS 1 traffic and backend-boundary perturbation; 2-6 blocked-in-send rounds (known finding)",
          "schedules are those the Go scheduler produces under perturbation (evidence counts distinct Setup orders); the blocked-in-send deadlock is a recorded known finding", "2-C13"),
  "C14": ("exploration", "child-process liveness with a crash journal, two witness clients exchanging numbered QoS 0/1/2 traffic and PINGs after every group of hostile streams, Closed() and Setup/Terminate pairing for every hostile connection, VerifSnapshot bookkeeping, goroutine census at final quiescence",
          "24 (quick) / 500 (thorough) brokers x 36 hostile streams of 9 kinds run 6 at a time with backend-boundary perturbation; MemoryBackend.Close at every backend hook-call index 1..40 of two concurrent sessions; every backend hook failing at its 1st-4th call before/after; takeover hitting KillTimeout",
          "hostile peers keep reading and never use a witness's client id; process death is turned into a violation by the driver from the journal", "2-C14"),
  "C15": ("exploration", "sequence numbers in payloads with an offline order checker per (publisher, publish QoS, delivered QoS, subscriber); retransmission order compared with the sender-side send log of the previous connection (broker and client library); first-arrival order over cut-and-resume cycles; callback order and service command order against a scripted broker",
-         "60/1500 end-to-end runs (1-8 pipelining publishers, 1-4 subscribers, windows 1-10, perturbation), 150/4000 broker resend runs, 200/5000 backlog cut-and-resume runs (with acknowledgements out of the middle of the window before the cut), 150/3000 client resend runs, 100/2000 client inbound runs, 80/1500 service command runs, 60/1200 service command runs with the connection cut after every k-th command (quick/thorough)",
+         "60/1500 end-to-end runs (1-8 pipelining publishers, 1-4 subscribers, windows 1-10, perturbation), 150/4000 broker resend runs, 200/5000 backlog cut-and-resume runs (with acknowledgements out of the middle of the window before the cut), 150/3000 client resend runs, 100/2000 client inbound runs, 60/1200 service inbound runs (backlog right after CONNACK, slow callbacks), 80/1500 service command runs, 60/1200 service command runs with the connection cut after every k-th command (quick/thorough)",
          "schedules are those produced by the Go scheduler with perturbation at the backend boundary; duplicates (DUP) are ignored for first-arrival order", "2-C15"),
  "C09": ("fault_enumeration", "offline checkers over the recorded event log of the client boundary (recording Session wrapper, logging Conn wrapper, scripted broker that logs an acknowledgement before writing it): SavePacket-before-send order, acknowledgement-before-future-success order, session content at rest, retransmission with DUP on resume; resolution poll of every future after the terminal call; goroutine-profile stuck detector around Close/Disconnect; accessor panic trap",
          "all API sequences of length <=3 (sampled length 3 in quick, plus 15000 sampled length-4 sequences with 0-8 concurrent callers in thorough) x 6 acknowledgement behaviours x 4 CONNACK behaviours x 4 terminal events x resume; for a deterministic subset every single client-side connection fault position (incl. the CONNECT) and every Session method failing at its 1st-3rd call; a slow Logger widens the send/bookkeeping window and a future whose acknowledgement the client logged as received must complete",
